@@ -9,12 +9,12 @@ open WsF
 theorem judge_cache (g : Cfg) (s : S) (c : Bytes) (d : Rfc.D1) : judge g { s with cache := c } d = judge g s d := rfl
 
 theorem judge_mkD1_append (g : Cfg) (s : S) (b m : Bytes) (x0 x1 : UInt8) (v hl : Nat) (tb : Bool) (r : NF)
-    (h : judge g s (Rfc.mkD1 b x0 x1 v hl tb) = r) (hr : r ≠ .need) :
-    judge g s (Rfc.mkD1 (b ++ m) x0 x1 v hl tb) = r := by
+    (h : judge g s (RfcM.mkD1 b x0 x1 v hl tb) = r) (hr : r ≠ .need) :
+    judge g s (RfcM.mkD1 (b ++ m) x0 x1 v hl tb) = r := by
   cases tb with
-  | true => simpa [Rfc.mkD1, judge] using h
+  | true => simpa [RfcM.mkD1, judge] using h
   | false =>
-    unfold Rfc.mkD1 at h ⊢
+    unfold RfcM.mkD1 at h ⊢
     simp only [Bool.false_eq_true, if_false] at h ⊢
     by_cases hp : b.length < (if x1.toNat ≥ 128 then hl + 4 else hl) + v
     · simp only [hp, if_true] at h
@@ -48,36 +48,36 @@ theorem take_append_ge (rest m : Bytes) (n : Nat) (h : rest.length ≥ n) : (res
 
 /-- a verdict other than "need more" is not changed by more input -/
 theorem judge_decode1_append (g : Cfg) (s : S) (b m : Bytes) (r : NF)
-    (h : judge g s (Rfc.decode1 b) = r) (hr : r ≠ .need) : judge g s (Rfc.decode1 (b ++ m)) = r := by
+    (h : judge g s (RfcM.decode1 b) = r) (hr : r ≠ .need) : judge g s (RfcM.decode1 (b ++ m)) = r := by
   match b with
-  | [] => simp [Rfc.decode1, judge] at h; exact absurd h.symm hr
-  | [x] => simp [Rfc.decode1, judge] at h; exact absurd h.symm hr
+  | [] => simp [RfcM.decode1, judge] at h; exact absurd h.symm hr
+  | [x] => simp [RfcM.decode1, judge] at h; exact absurd h.symm hr
   | x0 :: x1 :: rest =>
     have hcons : (x0 :: x1 :: rest) ++ m = x0 :: x1 :: (rest ++ m) := rfl
     by_cases h126 : x1.toNat % 128 = 126
     · by_cases hr2 : rest.length < 2
-      · simp [Rfc.decode1, h126, hr2, judge] at h; exact absurd h.symm hr
+      · simp [RfcM.decode1, h126, hr2, judge] at h; exact absurd h.symm hr
       · have hr3 : ¬ (rest.length + m.length < 2) := by omega
-        have e : Rfc.decode1 (x0 :: x1 :: rest) = Rfc.mkD1 (x0 :: x1 :: rest) x0 x1 (beDec (rest.take 2)) 4 false := by
-          simp [Rfc.decode1, h126, hr2]
-        have e' : Rfc.decode1 (x0 :: x1 :: (rest ++ m)) = Rfc.mkD1 (x0 :: x1 :: (rest ++ m)) x0 x1 (beDec (rest.take 2)) 4 false := by
-          simp [Rfc.decode1, h126, hr3, take_append_ge rest m 2 (by omega)]
+        have e : RfcM.decode1 (x0 :: x1 :: rest) = RfcM.mkD1 (x0 :: x1 :: rest) x0 x1 (beDec (rest.take 2)) 4 false := by
+          simp [RfcM.decode1, h126, hr2]
+        have e' : RfcM.decode1 (x0 :: x1 :: (rest ++ m)) = RfcM.mkD1 (x0 :: x1 :: (rest ++ m)) x0 x1 (beDec (rest.take 2)) 4 false := by
+          simp [RfcM.decode1, h126, hr3, take_append_ge rest m 2 (by omega)]
         rw [hcons, e', ← hcons]; rw [e] at h
         exact judge_mkD1_append g s _ m x0 x1 _ 4 false r h hr
     · by_cases h127 : x1.toNat % 128 = 127
       · by_cases hr2 : rest.length < 8
-        · simp [Rfc.decode1, h127, hr2, judge] at h; exact absurd h.symm hr
+        · simp [RfcM.decode1, h127, hr2, judge] at h; exact absurd h.symm hr
         · have hr3 : ¬ (rest.length + m.length < 8) := by omega
-          have e : Rfc.decode1 (x0 :: x1 :: rest) = Rfc.mkD1 (x0 :: x1 :: rest) x0 x1 (beDec (rest.take 8)) 10 (decide (beDec (rest.take 8) ≥ 2 ^ 63)) := by
-            simp [Rfc.decode1, h127, hr2]
-          have e' : Rfc.decode1 (x0 :: x1 :: (rest ++ m)) = Rfc.mkD1 (x0 :: x1 :: (rest ++ m)) x0 x1 (beDec (rest.take 8)) 10 (decide (beDec (rest.take 8) ≥ 2 ^ 63)) := by
-            simp [Rfc.decode1, h127, hr3, take_append_ge rest m 8 (by omega)]
+          have e : RfcM.decode1 (x0 :: x1 :: rest) = RfcM.mkD1 (x0 :: x1 :: rest) x0 x1 (beDec (rest.take 8)) 10 (decide (beDec (rest.take 8) ≥ 2 ^ 63)) := by
+            simp [RfcM.decode1, h127, hr2]
+          have e' : RfcM.decode1 (x0 :: x1 :: (rest ++ m)) = RfcM.mkD1 (x0 :: x1 :: (rest ++ m)) x0 x1 (beDec (rest.take 8)) 10 (decide (beDec (rest.take 8) ≥ 2 ^ 63)) := by
+            simp [RfcM.decode1, h127, hr3, take_append_ge rest m 8 (by omega)]
           rw [hcons, e', ← hcons]; rw [e] at h
           exact judge_mkD1_append g s _ m x0 x1 _ 10 _ r h hr
-      · have e : Rfc.decode1 (x0 :: x1 :: rest) = Rfc.mkD1 (x0 :: x1 :: rest) x0 x1 (x1.toNat % 128) 2 false := by
-          simp [Rfc.decode1, h126, h127]
-        have e' : Rfc.decode1 (x0 :: x1 :: (rest ++ m)) = Rfc.mkD1 (x0 :: x1 :: (rest ++ m)) x0 x1 (x1.toNat % 128) 2 false := by
-          simp [Rfc.decode1, h126, h127]
+      · have e : RfcM.decode1 (x0 :: x1 :: rest) = RfcM.mkD1 (x0 :: x1 :: rest) x0 x1 (x1.toNat % 128) 2 false := by
+          simp [RfcM.decode1, h126, h127]
+        have e' : RfcM.decode1 (x0 :: x1 :: (rest ++ m)) = RfcM.mkD1 (x0 :: x1 :: (rest ++ m)) x0 x1 (x1.toNat % 128) 2 false := by
+          simp [RfcM.decode1, h126, h127]
         rw [hcons, e', ← hcons]; rw [e] at h
         exact judge_mkD1_append g s _ m x0 x1 _ 2 false r h hr
 
